@@ -269,7 +269,7 @@ class Engine:
     # > 1: when a replay does not fail in a fresh interpreter, retry it as "the same
     # recorded run executed up to N times in one process" (violations that need process
     # history, e.g. state kept at class level between two parses)
-    replay_repeat_max = 1
+    replay_repeat_max = 3
     shrink_order: Sequence[str] = ()
     no_delete: Sequence[str] = ("cfg",)
 
@@ -757,11 +757,21 @@ def check(prop: str, tier: str) -> int:
         return 2
     local: dict[int, str] = {}
     local_traces: dict[int, list[str]] = {}
+    history_viols: list[tuple[int, dict[str, list[list[int]]], Violation]] = []
     for i in range(n_self):
         r1, rec = run_seeded(eng, vseed, i, True)
         r2, _ = run_seeded(eng, vseed, i, True)
         r3, _ = run_record(eng, rec, True)
         d1, d2, d3 = (digest_of(r.trace or []) for r in (r1, r2, r3))
+        if not (d1 == d2 == d3) and any(r.violation is not None for r in (r1, r2, r3)):
+            # the executions of one run differ *and* one of them violates the property: the
+            # system under test keeps state between runs (that is the finding, not a harness
+            # fault); it is reported through a replay that repeats the run in one process
+            vv = next(r.violation for r in (r1, r2, r3) if r.violation is not None)
+            history_viols.append((i, rec, vv))
+            local[i] = d1
+            local_traces[i] = [ln[:400] for ln in (r1.trace or [])[:40]]
+            continue
         if not (d1 == d2 == d3):
             print(
                 f"HARNESS-NONDETERMINISM: run {i}: in-process digests differ "
@@ -784,6 +794,8 @@ def check(prop: str, tier: str) -> int:
         return 2
     merge_stats(br.stats, x_stats)
     br.violations.extend(x_viol)
+    br.violations.extend(history_viols)
+    viol_runs = {run for run, _, _ in br.violations}
 
     # -- determinism across processes / hash seeds ---------------------------
     try:
@@ -797,6 +809,8 @@ def check(prop: str, tier: str) -> int:
         return 2
     fd = {int(k): v for k, v in json.loads(out.strip().splitlines()[-1]).items()}
     for i in range(n_self):
+        if not (local[i] == fd.get(i) == br.digests.get(i, local[i])) and i in viol_runs:
+            continue  # differs between processes *and* violates: judged below as a violation that needs history
         if not (local[i] == fd.get(i) == br.digests.get(i, local[i])):
             print(
                 f"HARNESS-NONDETERMINISM: run {i}: digest in this process {local[i]}, "
